@@ -6,6 +6,8 @@ errors).  The traceback of every exception is classified LIBRARY / DIAGNOSED_BUI
 INTERNAL (vlib.common.classify_exception); INTERNAL always refutes.
 """
 import copy
+import os
+import json
 import random
 
 from .. import cfggen
@@ -274,6 +276,76 @@ def _worker(arg):
     return agg
 
 
+DEEP_CHILD = '''
+import json, sys
+sys.path.insert(0, sys.argv[1])
+from vlib import common, shellbuild
+common.import_dznpy()
+case = json.load(open(sys.argv[2]))
+res = shellbuild.outcome(case["cfg"], case["doc"])
+print(json.dumps({"files": [f[0] for f in res["files"]]} if "files" in res else {"exc": res["exc"]}))
+'''
+
+
+def deep_case(depth: int) -> dict:
+    """A valid model whose component and interface sit `depth` namespaces deep."""
+    itf = M.Interface(['IDeep'], [], [M.Event('go', 'in', M.Ref(['void']), []),
+                                      M.Event('done', 'out', M.Ref(['void']), [])])
+    path = [f'n{i}' for i in range(depth)]
+    comp = M.Component(['Deep'], [M.Port('api', M.Ref(['IDeep'], '.'.join(path + ['IDeep'])),
+                                         'provides')])
+    inner = [itf, comp]
+    for name in reversed(path):
+        inner = [M.Namespace([name], inner)]
+    cfg = {'encapsulee': '.'.join(path + ['Deep']), 'filename': 'Deep.dzn', 'suffix': 'Shell',
+           'provides': {'sts': 'NONE', 'mts': 'ALL'}, 'requires': {'sts': 'NONE', 'mts': 'ALL'},
+           'multiclient': None, 'origin': 'create', 'copyright': 'c', 'creator': None,
+           'prefix': None}
+    return {'doc': M.to_json(M.Model(inner)), 'cfg': cfg, 'expect': 'success',
+            'fault': f'none:nesting-depth-{depth}'}
+
+
+def eval_deep(arg):
+    """'Never hangs' needs a budget that a loaded machine cannot exhaust by itself: the build
+    runs in a child limited to CPU_BUDGET seconds of *processor time* (the unchanged library
+    needs a few hundredths of a second at any of these depths)."""
+    import resource  # pylint: disable=import-outside-toplevel
+    import subprocess  # pylint: disable=import-outside-toplevel
+    import sys  # pylint: disable=import-outside-toplevel
+    import tempfile  # pylint: disable=import-outside-toplevel
+    depth, budget = arg
+    case = deep_case(depth)
+    out = {'violations': [], 'counts': {'deep_models_built': 1}, 'case': case}
+    with tempfile.NamedTemporaryFile('w', suffix='.json', delete=False) as fh:
+        json.dump(case, fh)
+    try:
+        proc = subprocess.run(
+            [sys.executable, '-c', DEEP_CHILD,
+             os.path.dirname(os.path.dirname(os.path.abspath(common.__file__))), fh.name], capture_output=True, text=True,
+            timeout=budget * 20, env=dict(os.environ, PYTHONHASHSEED='0'),
+            preexec_fn=lambda: resource.setrlimit(resource.RLIMIT_CPU, (budget, budget + 5)))
+        if proc.returncode < 0:
+            out['violations'].append({'mechanism': 'no-outcome-within-cpu-budget',
+                                      'detail': {'nesting_depth': depth, 'cpu_seconds': budget,
+                                                 'signal': -proc.returncode}, 'case': case})
+        elif proc.returncode != 0:
+            out['inconclusive'] = 'deep child failed: ' + proc.stderr[-300:]
+        else:
+            res = json.loads(proc.stdout.strip().splitlines()[-1])
+            if 'files' not in res:
+                info = res['exc']
+                out['violations'].append({'mechanism': f'valid-input-refused:{info["type"]}',
+                                          'detail': dict(info, nesting_depth=depth), 'case': case})
+            elif sorted(res['files']) != sorted(shellbuild.expected_filenames(case['cfg'])):
+                out['violations'].append({'mechanism': 'partial-or-wrong-file-set',
+                                          'detail': {'got': res['files']}, 'case': case})
+    except subprocess.TimeoutExpired:
+        out['inconclusive'] = f'deep child exceeded {budget * 20}s wall clock without using up its CPU budget'
+    finally:
+        os.unlink(fh.name)
+    return out
+
+
 def main(tier: str) -> int:
     run = common.Run(PROP, tier, level='fault_enumeration')
     n = 150 if tier == 'quick' else 15000
@@ -290,6 +362,17 @@ def main(tier: str) -> int:
         if len(run.samples) < run.max_samples:
             run.samples.append(common.jsonable(res['sample']))
         run.merge_counts(res['counts'])
+        for v in res['violations']:
+            run.violation(v['mechanism'], v.get('detail'), v.get('case'))
+    run.require('deep_models_built')
+    for _item, res in run.pmap(eval_deep, [(d, 60) for d in (8, 16, 24, 32, 40)]):
+        if 'harness_error' in res:
+            run.mark_inconclusive('harness error: ' + res['harness_error'][-400:])
+            continue
+        if res.get('inconclusive'):
+            run.mark_inconclusive(res['inconclusive'])
+        run.merge_counts(res['counts'])
+        run.case(common.digest(res['case']), True)
         for v in res['violations']:
             run.violation(v['mechanism'], v.get('detail'), v.get('case'))
     return run.finish(
